@@ -18,7 +18,7 @@ func init() { Registry["C13"] = c13 }
 
 // characters string literals are built from (everything the lexer accepts
 // inside quotes except the quote itself)
-var c13Chars = []rune{'a', ' ', '(', ')', ';', '\\', '\n', '\t', '\'', '[', ',', 'é', '☃', '\x01', '%', '$', '{', '`', '#', '|'}
+var c13Chars = []rune{'a', ' ', '(', ')', ';', '\\', '\n', '\t', '\'', '[', ',', 'é', '☃', '\x01', '%', '$', '{', '`', '#', '|', '\r', '\u2028'}
 
 func c13Strings(maxLen int) []string {
 	out := []string{""}
@@ -253,6 +253,16 @@ func c13(r *rep.Run) {
 					&c13case{src: "(or (overlap ls KLL) (in s KLL))", consts: map[string]interface{}{"KLL": sl}, vars: sv, binds: binds[:5], what: fmt.Sprintf("constant string list of %d elements shaped %q, shifted %d", k, shape, shift)})
 			}
 		}
+	}
+	// one very long line: a list literal of 14000 integers (> 64 KiB of text
+	// without a line break) nested two levels deep
+	{
+		var is []string
+		for i := 0; i < 14000; i++ {
+			is = append(is, fmt.Sprint(100000+i))
+		}
+		cases = append(cases, &c13case{src: "(and (not (in n (" + strings.Join(is, " ") + "))) b)", vars: []term.VarDecl{{Name: "n", Ty: term.TI}, {Name: "b", Ty: term.TB}},
+			binds: [][]interface{}{{int64(100000), true}, {int64(113999), true}, {int64(5), true}, {int64(5), false}}, what: "int list of 14000 elements on one line"})
 	}
 	// nested same-kind and/or groups whose operands total 120..131 once
 	// flattened (each written operator stays <= 127): where Compile accepts the
